@@ -10,7 +10,7 @@ import corr_fmt
 from fmtutil import VerPackage, Version
 from fmtutil.exceptions import FormatterError
 
-RULE = ("PEP 440 terms with three release numbers below 1000 and explicit segment numbers: epoch in {absent,0,1,2} x release x pre (8 letters x lead separator x "
+RULE = ("PEP 440 terms with three release numbers below 1000 and explicit segment numbers: epoch in {absent,0,1,2,10,100,2024} x release x pre (8 letters x lead separator x "
         "inner separator x number) x post (3 letters likewise + implicit -N) x dev x local; each printed string is paired with the format string that mirrors "
         "its structure. Exhaustive over the segment spellings for a fixed release (quick: sampled combinations), sampled beyond. distinct = distinct strings")
 TRUSTED = ["VersionPackage.parse is the reference reader (C04 ties it to PEP 440)"]
@@ -39,7 +39,7 @@ def terms(r, tier):
         out.append((None, (1, 2, 3), None, None, p, None))
     n = 400 if tier == "quick" else 8000
     for _ in range(n):
-        out.append((r.choice([None, 0, 1, 2]), r.choice(rel + [(r.randrange(1000), r.randrange(1000), r.randrange(1000))]), r.choice(pres), r.choice(posts), r.choice(devs), r.choice(LOCALS)))
+        out.append((r.choice([None, 0, 1, 2, 10, 100, 2024]), r.choice(rel + [(r.randrange(1000), r.randrange(1000), r.randrange(1000))]), r.choice(pres), r.choice(posts), r.choice(devs), r.choice(LOCALS)))
     return out
 
 
